@@ -96,7 +96,7 @@ Section P.
   Qed.
 
   Lemma inv_init : Inv init.
-  Proof. unfold Inv, CInv; simpl. repeat split; [intros ? ? [] | constructor | unfold maxsize; lia]. Qed.
+  Proof. unfold Inv, CInv; simpl. repeat split; [intros ? ? [] | constructor | apply Nat.le_0_l]. Qed.
 
   Lemma analyze_inv x s : Inv s ->
     Inv (fst (analyze value load input analysis x s)) /\ snd (analyze value load input analysis x s) = pure (analysis x).
